@@ -18,14 +18,14 @@ import (
 // a seeded scheduler; oracles: race detector, outcome == solo outcome, no deadlock.
 
 type Op struct {
-	K     string      `json:"k"`              // nop | engine | compile | invoke | eval | debug
-	Spec  *EngineSpec `json:"spec,omitempty"` // engine
-	E     int         `json:"e,omitempty"`    // compile: engine ref (op index of an `engine` op of this task, or shared index)
-	ES    bool        `json:"es,omitempty"`   // E refers to a shared engine
-	Prog  *Prog       `json:"prog,omitempty"` // compile / eval / debug
-	C     int         `json:"c,omitempty"`    // invoke: callable ref (op index of a `compile` op of this task, or shared index)
-	CS    bool        `json:"cs,omitempty"`   // C refers to a shared (pre-compiled) callable
-	Env   string      `json:"env,omitempty"`  // invoke: environment maker
+	K     string      `json:"k"`                // nop | engine | compile | invoke | eval | debug
+	Spec  *EngineSpec `json:"spec,omitempty"`   // engine
+	E     int         `json:"e,omitempty"`      // compile: engine ref (op index of an `engine` op of this task, or shared index)
+	ES    bool        `json:"es,omitempty"`     // E refers to a shared engine
+	Prog  *Prog       `json:"prog,omitempty"`   // compile / eval / debug
+	C     int         `json:"c,omitempty"`      // invoke: callable ref (op index of a `compile` op of this task, or shared index)
+	CS    bool        `json:"cs,omitempty"`     // C refers to a shared (pre-compiled) callable
+	Env   string      `json:"env,omitempty"`    // invoke: environment maker
 	EnvSh bool        `json:"env_sh,omitempty"` // invoke: use the scenario's shared read-only host value
 	N     int         `json:"n,omitempty"`      // register: tag(x) = x + N is registered on the task's own engine E
 }
@@ -36,11 +36,13 @@ type PreCompile struct {
 }
 
 type Scenario struct {
-	Shared    []EngineSpec `json:"shared,omitempty"`
-	Pre       []PreCompile `json:"pre,omitempty"`
-	Tasks     [][]Op       `json:"tasks"`
-	ColdFirst bool         `json:"cold_first,omitempty"` // run the concurrent phase before any solo run
-	Sim       simrt.Config `json:"sim"`
+	Shared     []EngineSpec `json:"shared,omitempty"`
+	Pre        []PreCompile `json:"pre,omitempty"`
+	Tasks      [][]Op       `json:"tasks"`
+	ColdFirst  bool         `json:"cold_first,omitempty"` // run the concurrent phase before any solo run
+	Sweep      int          `json:"sweep,omitempty"`      // after the run proper: so many more concurrent runs with one sync-point preemption each
+	timeFamily bool
+	Sim        simrt.Config `json:"sim"`
 }
 
 type preState struct {
@@ -224,22 +226,24 @@ type Violation struct {
 }
 
 type ScenResult struct {
-	Hash       uint64         `json:"hash"`
-	Steps      uint64         `json:"steps"`
-	Preempt    int            `json:"preempt"`
-	Switches   int            `json:"switches"`
-	Outcomes   [][]string     `json:"outcomes,omitempty"`
-	Decisions  []simrt.Decision `json:"decisions,omitempty"`
-	Viol       *Violation     `json:"viol,omitempty"`
-	Overlap    map[string]int `json:"overlap,omitempty"`
-	Faults     map[string]int `json:"faults,omitempty"`
-	MapPerms   int            `json:"map_perms"`
-	LockSpins  int            `json:"lock_spins"`
-	Sites      map[uint32]int `json:"-"`
-	SoloUnstable int          `json:"solo_unstable"`
-	OpsRun     int            `json:"ops"`
-	StepCap    bool           `json:"step_cap,omitempty"`
-	DecOverflow bool          `json:"dec_overflow,omitempty"`
+	Hash         uint64           `json:"hash"`
+	Steps        uint64           `json:"steps"`
+	Preempt      int              `json:"preempt"`
+	Switches     int              `json:"switches"`
+	Outcomes     [][]string       `json:"outcomes,omitempty"`
+	Decisions    []simrt.Decision `json:"decisions,omitempty"`
+	Viol         *Violation       `json:"viol,omitempty"`
+	Overlap      map[string]int   `json:"overlap,omitempty"`
+	Faults       map[string]int   `json:"faults,omitempty"`
+	MapPerms     int              `json:"map_perms"`
+	LockSpins    int              `json:"lock_spins"`
+	Sites        map[uint32]int   `json:"-"`
+	SoloUnstable int              `json:"solo_unstable"`
+	OpsRun       int              `json:"ops"`
+	StepCap      bool             `json:"step_cap,omitempty"`
+	DecOverflow  bool             `json:"dec_overflow,omitempty"`
+	Sweeps       int              `json:"sweeps,omitempty"`
+	FoundSim     *simrt.Config    `json:"-"` // the sweep variant that produced the violation
 }
 
 func soloCfg(sc *Scenario) simrt.Config {
@@ -301,90 +305,114 @@ func runScenario(sc *Scenario, raceLog *raceWatch) *ScenResult {
 		}
 		sort.Slice(cfg.Points, func(i, j int) bool { return cfg.Points[i] < cfg.Points[j] })
 	}
-	recs := make([]*recorder, k)
-	for i := range recs {
-		recs[i] = &recorder{}
-	}
-	ps := buildPre(sc, recs)
-	conc := make([][]string, k)
-	bodies := make([]func(), k)
-	for t := 0; t < k; t++ {
-		t := t
-		ops := sc.Tasks[t]
-		bodies[t] = func() { conc[t] = runScript(ops, ps, recs[t], true) }
-	}
-	r := simrt.Run(cfg, bodies...)
-	concPrinted = printedLines()
-	res.Hash, res.Steps, res.Preempt, res.Switches = r.Hash, r.Steps, r.Preemptions, len(r.Decisions)
-	res.Decisions = r.Decisions
-	res.Overlap, res.Faults, res.MapPerms, res.LockSpins, res.Sites = r.Overlap, r.FaultsFired, r.MapPerms, r.LockSpins, r.SitesSwitched
-	res.Outcomes = conc
-	res.StepCap = r.StepCap
-	res.DecOverflow = r.DecOverflow
-	for _, o := range conc {
-		res.OpsRun += len(o)
-	}
-	if v := raceLog.check(); v != nil {
-		res.Viol = v
-		return res
-	}
-	for t, p := range r.TaskPanics {
-		if p != nil && !simrt.IsAbort(p) {
-			harnessFatal("task %d: panic escaped the harness: %v", t, p)
+	var syncSeen uint64
+	attempt := func(cfg simrt.Config) *ScenResult {
+		recs := make([]*recorder, k)
+		for i := range recs {
+			recs[i] = &recorder{}
 		}
-	}
-	if r.Deadlock {
-		res.Viol = &Violation{"deadlock", "deadlock", fmt.Sprintf("all runnable tasks blocked on locks after %d steps", r.Steps)}
-		return res
-	}
-	if r.StepCap {
-		res.Viol = &Violation{"stall", "stall", fmt.Sprintf("step cap %d exceeded (no task finished its script)", cfg.MaxSteps)}
-		return res
-	}
-	if before == nil {
-		before, _ = soloRun()
-		soloPrinted = printedLines()
+		ps := buildPre(sc, recs)
+		conc := make([][]string, k)
+		bodies := make([]func(), k)
+		for t := 0; t < k; t++ {
+			t := t
+			ops := sc.Tasks[t]
+			bodies[t] = func() { conc[t] = runScript(ops, ps, recs[t], true) }
+		}
+		r := simrt.Run(cfg, bodies...)
+		syncSeen = r.SyncSeen
+		concPrinted = printedLines()
+		res.Hash, res.Steps, res.Preempt, res.Switches = r.Hash, r.Steps, r.Preemptions, len(r.Decisions)
+		res.Decisions = r.Decisions
+		res.Overlap, res.Faults, res.MapPerms, res.LockSpins, res.Sites = r.Overlap, r.FaultsFired, r.MapPerms, r.LockSpins, r.SitesSwitched
+		res.Outcomes = conc
+		res.StepCap = r.StepCap
+		res.DecOverflow = r.DecOverflow
+		for _, o := range conc {
+			res.OpsRun += len(o)
+		}
 		if v := raceLog.check(); v != nil {
-			v.Detail = "race detector fired during a SOLO (single task) run: " + v.Detail
 			res.Viol = v
 			return res
 		}
-	}
-	var after [][]string // second solo pass, only computed when something differs
-	if soloPrinted != concPrinted {
-		// what the tasks print together is what they print alone, line by line (order across
-		// tasks is free): output lost, duplicated, torn or attributed to another value
-		after, _ = soloRun()
-		raceLog.check()
-		if again := printedLines(); again == soloPrinted {
-			res.Viol = &Violation{"outcome", "outcome:stdout-lines",
-				fmt.Sprintf("standard output of the concurrent run is not the lines of the solo runs\n alone     : %q\n concurrent: %q", clip(soloPrinted), clip(concPrinted))}
+		for t, p := range r.TaskPanics {
+			if p != nil && !simrt.IsAbort(p) {
+				harnessFatal("task %d: panic escaped the harness: %v", t, p)
+			}
+		}
+		if r.Deadlock {
+			res.Viol = &Violation{"deadlock", "deadlock", fmt.Sprintf("all runnable tasks blocked on locks after %d steps", r.Steps)}
 			return res
 		}
-		res.SoloUnstable++
+		if r.StepCap {
+			res.Viol = &Violation{"stall", "stall", fmt.Sprintf("step cap %d exceeded (no task finished its script)", cfg.MaxSteps)}
+			return res
+		}
+		if before == nil {
+			before, _ = soloRun()
+			soloPrinted = printedLines()
+			if v := raceLog.check(); v != nil {
+				v.Detail = "race detector fired during a SOLO (single task) run: " + v.Detail
+				res.Viol = v
+				return res
+			}
+		}
+		var after [][]string // second solo pass, only computed when something differs
+		if soloPrinted != concPrinted {
+			// what the tasks print together is what they print alone, line by line (order across
+			// tasks is free): output lost, duplicated, torn or attributed to another value
+			after, _ = soloRun()
+			raceLog.check()
+			if again := printedLines(); again == soloPrinted {
+				res.Viol = &Violation{"outcome", "outcome:stdout-lines",
+					fmt.Sprintf("standard output of the concurrent run is not the lines of the solo runs\n alone     : %q\n concurrent: %q", clip(soloPrinted), clip(concPrinted))}
+				return res
+			}
+			res.SoloUnstable++
+		}
+		for t := 0; t < k; t++ {
+			for i := range sc.Tasks[t] {
+				b, c := at(before, t, i), at(conc, t, i)
+				if c == b {
+					continue
+				}
+				if after == nil {
+					after, _ = soloRun()
+					raceLog.check()
+				}
+				if a := at(after, t, i); b != a {
+					res.SoloUnstable++ // sequential nondeterminism: C13's business, not comparable here
+					continue
+				}
+				op := sc.Tasks[t][i]
+				src := ""
+				if op.Prog != nil {
+					src = op.Prog.Src
+				}
+				res.Viol = &Violation{"outcome",
+					fmt.Sprintf("outcome:%s:%s->%s", op.K, class(b), class(c)),
+					fmt.Sprintf("task %d op %d (%s %q): alone=%s concurrent=%s", t, i, op.K, src, clip(b), clip(c))}
+				return res
+			}
+		}
+		return res
 	}
-	for t := 0; t < k; t++ {
-		for i := range sc.Tasks[t] {
-			b, c := at(before, t, i), at(conc, t, i)
-			if c == b {
-				continue
-			}
-			if after == nil {
-				after, _ = soloRun()
-				raceLog.check()
-			}
-			if a := at(after, t, i); b != a {
-				res.SoloUnstable++ // sequential nondeterminism: C13's business, not comparable here
-				continue
-			}
-			op := sc.Tasks[t][i]
-			src := ""
-			if op.Prog != nil {
-				src = op.Prog.Src
-			}
-			res.Viol = &Violation{"outcome",
-				fmt.Sprintf("outcome:%s:%s->%s", op.K, class(b), class(c)),
-				fmt.Sprintf("task %d op %d (%s %q): alone=%s concurrent=%s", t, i, op.K, src, clip(b), clip(c))}
+	if attempt(cfg); res.Viol != nil || sc.Sweep == 0 {
+		return res
+	}
+	// single-preemption sweep: the same workload again, each time with ONE preemption at a
+	// yield next to a synchronisation operation chosen among those the first run met, the rest
+	// uninterrupted - walks the windows between critical sections instead of hoping for them
+	total := syncSeen
+	sr := newRng(cfg.Seed, 0x5eeb)
+	for j := 0; j < sc.Sweep && total > 0; j++ {
+		c2 := cfg
+		c2.Sched, c2.Points, c2.Decisions = simrt.SchedPCT, nil, nil
+		c2.SyncPoints = []uint64{1 + sr.u64()%total}
+		c2.Seed = cfg.Seed + uint64(j) + 1
+		res.Sweeps++
+		if attempt(c2); res.Viol != nil {
+			res.FoundSim = &c2
 			return res
 		}
 	}
@@ -514,7 +542,7 @@ func raceSignature(txt string) (sig string, ours bool) {
 // process has (mostly) not seen yet: concurrent tz-cache misses, lock contention.
 func genTimeScenario(r *rng, cold bool) *Scenario {
 	// mostly concurrent-first: the solo runs would resolve every zone name before the tasks meet
-	sc := &Scenario{ColdFirst: cold || r.chance(0.7)}
+	sc := &Scenario{ColdFirst: cold || r.chance(0.7), timeFamily: true}
 	k := 2 + r.intn(3)
 	zones := []string{r.pick(tzMany), r.pick(tzMany), r.pick(tzMany)}
 	for t := 0; t < k; t++ {
@@ -537,8 +565,17 @@ func genTimeScenario(r *rng, cold bool) *Scenario {
 		sc.Tasks = append(sc.Tasks, ops)
 	}
 	sc.Sim = genSimConfig(r)
-	if r.chance(0.6) {
-		sc.Sim.Sched, sc.Sim.SwitchProb = simrt.SchedRandom, []float64{0.3, 1.0}[r.intn(2)]
+	switch c := r.intn(10); {
+	case c < 4:
+		// the zone cache is a handful of short critical sections: sync-point preemptions
+		sc.Sim.Sched, sc.Sim.Points, sc.Sim.SyncPoints = simrt.SchedPCT, nil, nil
+		d := 1 + r.intn(3)
+		for i := 0; i < d; i++ {
+			sc.Sim.SyncPoints = append(sc.Sim.SyncPoints, 1+uint64(r.intn(1<<uint(1+r.intn(7)))))
+		}
+		sort.Slice(sc.Sim.SyncPoints, func(i, j int) bool { return sc.Sim.SyncPoints[i] < sc.Sim.SyncPoints[j] })
+	case c < 8:
+		sc.Sim.Sched, sc.Sim.SyncPoints, sc.Sim.SwitchProb = simrt.SchedRandom, nil, []float64{0.3, 1.0}[r.intn(2)]
 	}
 	return sc
 }
@@ -688,6 +725,20 @@ func genRegisterScenario(r *rng, cold bool) *Scenario {
 }
 
 func genScenario(r *rng, cold bool) *Scenario {
+	sc := genScenario0(r, cold)
+	// a single-preemption sweep after the run proper: always affordable for the short time
+	// scenarios, now and then for the others
+	p := 0.05
+	if sc.timeFamily {
+		p = 0.4
+	}
+	if r.chance(p) {
+		sc.Sweep = 4 + r.intn(4)
+	}
+	return sc
+}
+
+func genScenario0(r *rng, cold bool) *Scenario {
 	if !cold && r.chance(0.08) {
 		return genLazyScenario(r)
 	}
